@@ -56,6 +56,9 @@ ResultClauses(e, I, R, tag) ==
             /\ (fwd /\ I.balance /\ FreeStart(I, t)) => Report(C08_Tight(I, R, t), e, "C08.tight", <<t, tag>>)
             /\ (fwd /\ I.balance /\ FreeStart(I, t) /\ ~EndFixed(I, t) /\ I.now <= I.pstart /\ HasRows(R, t))
                   => Report(C08_Encoding(I, R, t), e, "C08.encoding", <<t, tag>>)
+            /\ (fwd /\ I.balance /\ FreeStart(I, t) /\ ~EndFixed(I, t) /\ I.now <= I.pstart /\ NoLinks(I)
+                  /\ QZero(Need(I, t)) /\ ~HasRows(R, t))
+                  => Report(C08_ZeroWork(I, R, t), e, "C08.encoding", <<t, "no work", tag>>)
             /\ (~fwd /\ free) => Report(C09_Deadline(I, R, t), e, "C09.deadline", <<t, tag>>)
             /\ (~fwd /\ free) => \A p \in PreOf(I, t) \cap Tasks(I) :
                                       Report(C09_Dependency(I, R, p, t), e, "C09.dependency", <<t, tag>>)
